@@ -324,9 +324,18 @@ def check_rebase(ctx, out, rule="C03.rebase"):
                 # parameter of an inlined helper): name the storage the reference designates
                 root, bf = util.base_path(b, {"l": lhs["l"], "p": []})
                 fields = tuple(bf) + fields
+            labs = None
             if len(fields) >= 3 and fields[-3] == "position_range" and fields[-1] in ("line", "character"):
                 labs = ctx.prov.resolve_upvars(b, ctx.prov.read_operand(b, s["rv"]["op"])) if s["rv"]["k"] == "use" else set()
                 writes[(fields[-2], fields[-1])] = (bi, j, s, labs)
+            elif fields and fields[-1] in ("line", "character") and lhs["p"] and lhs["p"][0] == "deref":
+                # the reference may designate several cells (`for p in [&mut r.start, &mut r.end] { p.line += .. }`):
+                # the write reaches each of them (points-to sets of the provenance analysis)
+                for (cl, cp) in ctx.prov._targets(b, ctx.prov.env(b), lhs):
+                    if len(cp) >= 3 and cp[-3] == "position_range" and cp[-1] in ("line", "character"):
+                        if labs is None:
+                            labs = ctx.prov.resolve_upvars(b, ctx.prov.read_operand(b, s["rv"]["op"])) if s["rv"]["k"] == "use" else set()
+                        writes.setdefault((cp[-2], cp[-1]), (bi, j, s, labs))
         if not writes:
             continue
         found = True
@@ -364,12 +373,18 @@ def check_rebase(ctx, out, rule="C03.rebase"):
                                 own = tuple(x["f"] for x in rp["p"] if isinstance(x, dict) and "f" in x)
                                 root, bf = util.base_path(b, {"l": rp["l"], "p": []})
                                 txt = txt + " " + ".".join(tuple(bf) + own)
+                                if rp["p"] and rp["p"][0] == "deref":
+                                    for (cl, cp) in ctx.prov._targets(b, ctx.prov.env(b), rp):
+                                        txt = txt + " " + ".".join(cp)
                 if e[0] == "bin" and e[1] == "Eq" and ("position_range.%s.line" % pos) in txt and 0 not in vals:
                     c = [x[1] for x in walk(e) if x[0] == "const"]
                     if c == [1]:
                         gok = True
                         # the line write must not precede the test
-                        if cfg.dominates(wl[0], br) and wl[0] != br:
+                        spx = util.op_place(b.blocks[br]["term"]["op"])
+                        sdx = b.single_def(spx["l"]) if spx and not spx["p"] else None
+                        same_block_after = wl[0] == br and sdx is not None and sdx[0] == "stmt" and sdx[1] == br and wl[1] < sdx[2]
+                        if (cfg.dominates(wl[0], br) and wl[0] != br) or same_block_after:
                             gok = False
                             out.viol(rule, "%s|" % rule + "%s|guard-after-row" % pos, ctx.where(b, wc[2]["span"]),
                                      "the first-row test for the %s column is evaluated after the row has been translated to document coordinates: it only holds for HTML blocks on line 1 of the file" % pos)
